@@ -853,6 +853,11 @@ func (g *g14) funcDef(isSubr bool, idx int) string {
 		body = append(body, "if (n <= 0) {\nreturn "+g.expr(1, k)+";\n}")
 		g.noCalls = false
 	}
+	if len(f.params) > 1 && g.ch(1, 2) {
+		// a parameter assigned from a nested block and read after it: the assignment must reach the
+		// parameter's own binding (the base frame of the call), not create a block-local
+		body = append(body, "if (n > 0) {\nb = "+g.expr(1, f.params[1])+";\n}\nprint b;")
+	}
 	n := 1 + g.r.intn(3)
 	for i := 0; i < n; i++ {
 		body = append(body, g.stmt(2))
